@@ -193,7 +193,11 @@ func (s *HS) sync() {
 			panic("http history: crash items are not supported")
 		}
 		s.hitems = append(s.hitems, conv)
-		s.hobs = append(s.hobs, s.obs[s.synced])
+		o := s.obs[s.synced]
+		if len(o.items) > 2 {
+			o = L(o.items[0], o.items[1]) // the HTTP case family compares result and snapshot of a direct operation, not its call log
+		}
+		s.hobs = append(s.hobs, o)
 	}
 }
 
